@@ -5,6 +5,7 @@ import (
 	"context"
 	"errors"
 	"fmt"
+	"math"
 	"math/rand"
 	"sort"
 	"time"
@@ -316,7 +317,8 @@ func (ex *Exchange[H]) GetRangeByHeight(
 	)
 	defer span.End()
 	// the requested range is (from.Height():to), so it must contain at least one height
-	if to <= from.Height()+1 {
+	// (nothing follows the maximal height, for which from.Height()+1 wraps around)
+	if from.Height() == math.MaxUint64 || to <= from.Height()+1 {
 		err := fmt.Errorf("%w: (%d:%d)", header.ErrRangeMixUp, from.Height(), to)
 		span.SetStatus(codes.Error, err.Error())
 		return nil, err
